@@ -42,7 +42,7 @@ func init() {
 		id: "C02", worker: "c02", goCmd: "go",
 		instrument: []string{"-maps", "-clock", "-tick"},
 		tiers: map[string]tierCfg{
-			"quick":    {cases: 120_000, timeout: 20 * time.Minute},
+			"quick":    {cases: 240_000, timeout: 20 * time.Minute},
 			"thorough": {cases: 20_000_000, timeout: 180 * time.Minute},
 		},
 		level: "exploration",
